@@ -7,8 +7,8 @@ Part 1 (`%` formatting) follows, branch by branch,
 * `PercentFormatString.from_pattern` / `from_bytes_pattern` (:221/:242): the specifier list and
   which raw pieces contain a `%`;
 * `ConversionSpecifier.lint` (:127), `PercentFormatString.lint` (:264);
-* `PercentFormatString.accept` (:283), `accept_mapping_args_no_mvv` (:310) including the
-  `', '.join(keys_left)` crash on a `None` key, `get_serial_specifiers` (:339),
+* `PercentFormatString.accept` (:283), `accept_mapping_args_no_mvv` (:310; after cf8a3b3 the
+  `None` key of unkeyed specifiers is dropped from `keys_left`), `get_serial_specifiers` (:339),
   `accept_tuple_args_no_mvv` (:355), `ConversionSpecifier.accept_no_mvv` (:154),
   `StarConversionSpecifier.accept` (:199);
 * `check_string_format` (:389): result type.
@@ -25,7 +25,7 @@ non-ASCII decimal digits, non-ASCII bytes in a bytes mapping key (pyanalyze's
 
 No imports: this file must stay core-only so the drivers start fast.
 -/
-namespace Pya
+namespace Pya.C17
 
 /-! ## Argument universe (literal arguments, abstracted to what the checks look at) -/
 
@@ -182,6 +182,7 @@ inductive PErr
   | missingKeys  -- "No value specified for keys …"
   | tooFew | tooMany
   | numeric      -- "%d conversion specifier accepts numbers, not …"
+  | intOnly      -- "%x conversion specifier accepts integers, not …" (a9a8c6b)
   | cRange       -- "%c requires an integer in range(256), not …"
   | cLen         -- "%c requires a single character, not …"
   | cType        -- "%c requires an integer or character, not …"
@@ -226,10 +227,20 @@ def Elem.bytesOk : Elem → Bool
 
 /-- `_NUMERIC_CONVERSION_TYPES = set("diouxXeEfFgG")` -/
 def isNumericConv (c : Char) : Bool := "diouxXeEfFgG".toList.contains c
+/-- `self.conversion_type in "oxX"` -/
+def isHexConv (c : Char) : Bool := c == 'o' || c == 'x' || c == 'X'
+/-- `TypedValue(_SupportsIndex).is_assignable` on the literal universe (only reached for values
+that passed `Numeric`): int and bool have `__index__`, float does not. -/
+def Elem.indexOk : Elem → Bool
+  | .sc (.int _) | .sc (.bool _) => true
+  | _ => false
 
 /-- `ConversionSpecifier.accept_no_mvv` (:154). -/
 def CSpec.accept (isBytes : Bool) (s : CSpec) (e : Elem) : List PErr :=
-  if isNumericConv s.conv then (if e.numericOk then [] else [.numeric])
+  if isNumericConv s.conv then
+    if !e.numericOk then [.numeric]
+    else if isHexConv s.conv && !e.indexOk then [.intOnly]
+    else []
   else if s.conv == 'a' || s.conv == 'r' then []
   else if s.conv == 'c' then
     if e.intOk then
@@ -299,9 +310,6 @@ def perKeyErrs (isBytes : Bool) (ss : List CSpec) (kvs : List (Key × Elem)) : L
     | some ks => (specsForKey ss ks).flatMap fun s => s.accept isBytes kv.2
     | none => []
 
-/-- `None in keys_left`: some non-`%` specifier has no mapping key. -/
-def noneKeyLeft (ss : List CSpec) : Bool := (ss.filter (·.conv != '%')).any (·.key.isNone)
-
 /-- Some mapping key of a non-`%` specifier is not among the string keys of the dict. -/
 def strKeyLeft (ss : List CSpec) (kvs : List (Key × Elem)) : Bool :=
   (ss.filter (·.conv != '%')).any fun s =>
@@ -312,44 +320,39 @@ def strKeyLeft (ss : List CSpec) (kvs : List (Key × Elem)) : Bool :=
 /-- `non_literals` is non-empty. -/
 def hasNonLiteralKey (kvs : List (Key × Elem)) : Bool := kvs.any fun kv => kv.1.strVal.isNone
 
-/-- Result of `accept_mapping_args_no_mvv` (:310): messages yielded, and whether the generator
-then dies in `', '.join(keys_left)` because `None` (a specifier without mapping key) is among
-the keys left. -/
-def acceptMapping (isBytes : Bool) (ss : List CSpec) (a : Arg) : List PErr × Bool :=
+/-- `accept_mapping_args_no_mvv` (:310). `keys_left` only holds real mapping keys (the `None`
+key of unkeyed specifiers is filtered out, cf8a3b3), so the generator always runs to completion. -/
+def acceptMapping (isBytes : Bool) (ss : List CSpec) (a : Arg) : List PErr :=
   match a with
   | .dict kvs =>
-    if (noneKeyLeft ss || strKeyLeft ss kvs) && !hasNonLiteralKey kvs then
-      if noneKeyLeft ss then (perKeyErrs isBytes ss kvs, true)
-      else (perKeyErrs isBytes ss kvs ++ [.missingKeys], false)
-    else (perKeyErrs isBytes ss kvs, false)
-  | _ => ([.needMapping], false)
+    if strKeyLeft ss kvs && !hasNonLiteralKey kvs then perKeyErrs isBytes ss kvs ++ [.missingKeys]
+    else perKeyErrs isBytes ss kvs
+  | _ => [.needMapping]
 
 /-- `PercentFormatString.accept` (:283). -/
-def acceptAll (isBytes : Bool) (ss : List CSpec) (a : Arg) : List PErr × Bool :=
+def acceptAll (isBytes : Bool) (ss : List CSpec) (a : Arg) : List PErr :=
   if ss.isEmpty then
-    (if a != .tup [] && a != .dict [] then [.noSpecs] else [], false)
+    (if a != .tup [] && a != .dict [] then [.noSpecs] else [])
   else if needsMapping ss then acceptMapping isBytes ss a
-  else (acceptTuple isBytes ss a, false)
+  else acceptTuple isBytes ss a
 
-/-- Inferred type of the `%` expression. -/
-inductive RTy | str | bytes | anyError
+/-- Inferred type of the `%` expression: `TypedValue(type(format_str))`. -/
+inductive RTy | str | bytes
   deriving DecidableEq, Repr, Inhabited
 
 structure POut where
   errs : List PErr    -- `bad_format_string` messages in emission order (lint first)
-  crash : Bool        -- an exception escapes `check_string_format` (⇒ `internal_error`)
   ty : RTy
   deriving DecidableEq, Repr, Inhabited
 
 /-- `check_string_format` (:389) as used by `_visit_binop_internal` (name_check_visitor.py:3739). -/
 def pyaPercent (isBytes : Bool) (t : List Char) (a : Arg) : POut :=
   let ts := scan t
-  let (acc, crash) := acceptAll isBytes (specsOf ts) a
-  { errs := lintAll isBytes ts ++ acc, crash := crash,
-    ty := if crash then .anyError else if isBytes then .bytes else .str }
+  { errs := lintAll isBytes ts ++ acceptAll isBytes (specsOf ts) a,
+    ty := if isBytes then .bytes else .str }
 
 /-- Something is reported on the expression. -/
-def POut.reports (o : POut) : Bool := !o.errs.isEmpty || o.crash
+def POut.reports (o : POut) : Bool := !o.errs.isEmpty
 
 /-- The deliberately stricter lint rules (documented in the source: the comment in
 `PercentFormatString.accept` about `'' % {'a': 3}`, and the mixing rule of `lint`). -/
@@ -552,4 +555,4 @@ def FMsg.lintOnly : FMsg → Bool
   | .unusedIdx | .unusedKw => true
   | _ => false
 
-end Pya
+end Pya.C17
